@@ -13,6 +13,8 @@ from ..refs import kauri_ref
 
 THOROUGH_SCALE = 3  # thorough budgets below are multiplied by this (about ten minutes on 16 processes)
 
+TERMINATION_IS_PROPERTY = True  # "fit ... terminates", "path() always terminates": the watchdog of the harness reports here
+
 RULE = ("all 18 estimators; hyper-parameters drawn inside each estimator's own accepted domain (registry names / "
         "GEMINI instances / None, solvers, batch sizes 1..n+2 and None, OvA/OvO, every named kernel / metric incl. "
         "callables and precomputed matrices passed as y, parameter dicts, group structures, n_cuts, temperature, masks, "
